@@ -788,6 +788,16 @@ static void c14_build(Rng &rng, Bytes &content_type, Bytes &body, std::vector<Pa
     lf_only = rng.chance(1, 8);
     std::string eol = lf_only ? "\n" : "\r\n";
     content_type = "multipart/form-data; boundary=" + boundary;
+    // other well-formed spellings of the parameter (RFC 2046 5.1.1 / RFC 7231 3.1.1.1): quoted, no space after ';', parameter name in
+    // another case, another parameter first
+    switch (rng.below(10)) {
+        case 0: content_type = "multipart/form-data; boundary=\"" + boundary + "\""; break;
+        case 1: content_type = "multipart/form-data;boundary=" + boundary; break;
+        case 2: content_type = "multipart/form-data; Boundary=" + boundary; break;
+        case 3: content_type = "multipart/form-data; charset=utf-8; boundary=" + boundary; break;
+        case 4: content_type = "Multipart/Form-Data; boundary=" + boundary; break;
+        default: break;
+    }
     int n = (int) rng.range(0, 8); if (rng.chance(1, 2)) n = (int) rng.range(1, 3);
     parts.clear();
     static const char *NEAR[] = {"\r", "\n", "\r\n", "--", "\r\n--", "\r\n-", "-", "\r\r\n", "\n\r", "\r\n\r\n"};
